@@ -111,7 +111,10 @@ def monitors (c : Spec.Ctx) (j : Journal) (fatalHere : Bool) : List String :=
      "C19|not-in-group reported although every removal candidate is a member"] else []) ++
   ((Spec.C06.upRemovalBad c j).map (fun t => "C06|" ++ t)) ++
   (if Spec.C01.holds c j then [] else ["C01|" ++ ";".intercalate (Spec.C01.bad c j)]) ++
-  (if Spec.C03.holds c j then [] else ["C03|taints added although fewer than min_nodes untainted nodes remain (or while below the minimum)"]) ++
+  (if Spec.C03.holds c j then [] else ["C03|taints added although fewer than min_nodes untainted nodes remain (or while below the minimum)"] ++
+    -- only untainted, uncordoned nodes count towards min_nodes: with a cordoned node in view, tainting below the minimum
+    -- also speaks against "a cordoned node is never counted"
+    (if c.view.nodes.any (·.unschedulable) then ["C09|cordoned-node-in-view: taints added although fewer than min_nodes untainted, uncordoned nodes remain"] else [])) ++
   -- a fleet request made for a group names subnets of that group's own cloud group, and instance types from its own configuration
   (let foreign := j.filterMap (fun e => match e.call with
       | .createFleet r =>
